@@ -104,7 +104,7 @@ def one_run(exe, workers, ops, seed, stall, tag, dual=0):
         try:
             p = subprocess.run([exe, str(workers), str(ops), str(seed), str(stall), str(dual)],
                                env=env,
-                               stdout=subprocess.PIPE, stderr=subprocess.PIPE, timeout=900)
+                               stdout=subprocess.PIPE, stderr=subprocess.PIPE, timeout=420)
             rc, out, err = p.returncode, p.stdout.decode("latin1"), p.stderr.decode("latin1")
         except subprocess.TimeoutExpired as e:
             rc, out, err = None, (e.stdout or b"").decode("latin1"), "WALL-CLOCK-TIMEOUT"
